@@ -486,4 +486,28 @@ def runItersRef (mods : List Modif) (orig : List Atom) : St â†’ List (List Int Ã
 def fixPtmRef (m : Mol) (mods : List Modif) : Outcome :=
   runItersRef mods m.atoms { mol := m, removed := [], warnings := [], log := [] } (iterations m)
 
+/-! ## the processor object
+
+`CanonicalizeModifications` defines no attributes and `Processor` (its base class) defines none: the state an
+instance carries from one call of `run_molecule` to the next is empty.  `run_molecule(molecule)` reads the
+modifications from `molecule.force_field.modifications` at the moment of the call; `run_system` calls
+`run_molecule` for the molecules in order. -/
+
+structure Proc where
+  deriving Repr, Inhabited
+
+/-- one call: the molecule, the modifications of ITS force field as they are now, the candidate lists recorded
+from the real matcher during this call -/
+abbrev Job := Mol Ã— List Modif Ã— List (List (List Placement))
+
+def Proc.runMolecule (p : Proc) (j : Job) : Proc Ã— Outcome := (p, fixPtm j.1 j.2.1 j.2.2)
+
+/-- a sequence of calls on ONE instance (`run_system`, or one processor object used for several systems) -/
+def Proc.runHistory (p : Proc) : List Job â†’ Proc Ã— List Outcome
+  | [] => (p, [])
+  | j :: js =>
+    let r := p.runMolecule j
+    let rs := r.1.runHistory js
+    (rs.1, r.2 :: rs.2)
+
 end C14
